@@ -179,6 +179,7 @@ var assumptionText = map[string]string{
 	"A2": "A2: len(s) <= 2^62 for every slice/string, so len+len and len+10 do not wrap",
 	"A3": "A3: trusted contracts for the standard library and the go:linkname'd runtime functions (binary.Uvarint: n<=len(buf), |n|<=10, n==0 short buffer, n<0 overflow; typedmemclr writes only its 2nd argument; mapassign copies the key; string([]byte)/append(nil,b...) copy)",
 	"A4": "A4: user-supplied codecs obey the same Codec contracts every in-module implementation is checked against (assume-guarantee at the interface)",
+	"A6": "A6: plenccodec.sliceHeader mirrors a Go slice header (0 <= Len, 0 <= Cap); fields of objects reached through pointers are not modified by callees between a guard and its use unless the function itself stores to them",
 	"A5": "A5: go/types and go/ssa (x/tools v0.29.0) model the program faithfully; unsafe.Pointer arithmetic is modelled by pointer-root tracing",
 }
 
